@@ -37,8 +37,8 @@ GAPS = [0, 1, 20, 100, 500, 999, 1000, 1001, 3000]
 q_st = st.fixed_dictionaries({
     'kind': st.just('query'),
     'qs': st.lists(st.tuples(st.sampled_from(['type', 'inst', 'host', 'enum']), st.integers(0, 1), st.sampled_from([12, 12, 33, 16, 1, 28, 255]),
-                             st.booleans()).map(list), min_size=1, max_size=3),
-    'probe': st.sampled_from([False, False, False, True]), 'tc': st.sampled_from([False, False, False, True]),
+                             st.sampled_from([False, False, False, False, False, True])).map(list), min_size=1, max_size=3),
+    'probe': st.sampled_from([False] * 7 + [True]), 'tc': st.sampled_from([False, False, False, True]),
     'port': st.sampled_from([5353, 5353, 5353, 40001]), 'client': st.integers(0, 1),
 })
 
